@@ -356,6 +356,9 @@ func decide(c Case) (err error) {
 		if err != nil {
 			return err
 		}
+		if r := ev.RaceCheck(); r != "" {
+			return fmt.Errorf("run %d (workers=%d): the race detector reported a data race:\n%s", run, c.Workers, r)
+		}
 		if mustFail && runErr == nil {
 			return fmt.Errorf("run %d: a template cannot be generated but the command reported success", run)
 		}
